@@ -8,13 +8,15 @@ if os.path.exists(dst):
     shutil.rmtree(dst)
 os.makedirs(dst)
 def ignore(d, names):
-    return [n for n in names if n in ('target', 'Cargo.lock', '.git') or n.endswith('.so')]
+    return [n for n in names if n in ('target', 'Cargo.lock', '.git', 'work', 'out') or n.endswith('.so') or os.path.islink(os.path.join(d, n))]
 for n in os.listdir(src):
     p = os.path.join(src, n)
     if n in ('meta.json',):
         continue
+    if n in ('work', 'out', 'target') or os.path.islink(p):
+        continue
     if os.path.isdir(p):
-        shutil.copytree(p, os.path.join(dst, n), ignore=ignore)
+        shutil.copytree(p, os.path.join(dst, n), ignore=ignore, symlinks=True)
     elif os.path.getsize(p) < 2_000_000:
         shutil.copy(p, os.path.join(dst, n))
 meta = json.load(open(os.path.join(src, 'meta.json'))) if os.path.exists(os.path.join(src, 'meta.json')) else {}
